@@ -99,3 +99,19 @@ impl ProgramLines {
         lines
     }
 }
+
+#[cfg(abasic_verif)]
+impl ProgramLines {
+    /// Canonical text: the keys of the sorted set, then the sorted keys of the map.
+    pub(crate) fn verif_snapshot(&self) -> String {
+        let set = self
+            .sorted_line_numbers
+            .iter()
+            .map(|n| n.to_string())
+            .collect::<Vec<_>>();
+        let mut map = self.numbered_lines.keys().copied().collect::<Vec<_>>();
+        map.sort();
+        let map = map.iter().map(|n| n.to_string()).collect::<Vec<_>>();
+        format!("{}/{}", set.join(","), map.join(","))
+    }
+}
